@@ -10,6 +10,7 @@ import (
 	"verif/harness/internal/chain"
 	"verif/harness/internal/codecfam"
 	"verif/harness/internal/common"
+	"verif/harness/internal/keysfam"
 	"verif/harness/internal/kv"
 	"verif/harness/internal/rm"
 )
@@ -24,6 +25,8 @@ func family(name string, profile string) common.Family {
 		return rm.New(profile)
 	case "codec":
 		return codecfam.New(profile)
+	case "keys":
+		return keysfam.New(profile)
 	case "kv":
 		return kv.New(profile)
 	}
